@@ -48,15 +48,17 @@ func bootConsensus() {
 // chainStub answers the four BlockChain calls the rounds make after round0.
 type chainStub struct {
 	core.BlockChain
-	exists    bool
-	existHits int // HasBlockByHash answered true (the only source of round1/round2 errors besides checkSignature)
-	generated []types.BlockHeader
-	added     chan struct{}
+	exists     bool
+	everExists bool // HasBlockByHash ever answered true in this scenario (an error ending is then legitimate)
+	existHits  int  // HasBlockByHash answered true (the only source of round1/round2 errors besides checkSignature)
+	generated  []types.BlockHeader
+	added      chan struct{}
 }
 
 func (c *chainStub) HasBlockByHash(h common.Hash) bool {
 	if c.exists {
 		c.existHits++
+		c.everExists = true
 	}
 	return c.exists
 }
@@ -755,7 +757,9 @@ func (r *runner) runScript(sc script) {
 					r.st.DecodeDrops++
 				} else {
 					strayKey = m.BlockHash
-					if b.honestOf >= 0 && before.InManager && !s.chain.exists && s.pk[b.honestOf] {
+					// an honest member's genuine message counts as delivered whether or not the party is still there:
+					// a party that vanished for no legitimate reason is exactly what the liveness oracle must see
+					if b.honestOf >= 0 && !s.chain.exists && s.pk[b.honestOf] && (before.InManager || s.ending == "") {
 						s.honest[b.honestOf] = true
 					}
 					s.round.P.OnMessageVerify(m)
@@ -848,7 +852,21 @@ func (r *runner) check(s *scen, o observed, at string) {
 // the live party, the party must have ended with a generated, valid block —
 // whatever else the Byzantine senders interleaved.
 func (r *runner) checkFinal(s *scen) {
-	if len(s.honest) < s.ks.k || s.foreign {
+	if s.foreign || s.chain.everExists {
+		return
+	}
+	// safety form (byzantine_cannot_cause_error): the block was never on the chain, nobody rejected the
+	// proposal, no timeout — then nothing may have made the reaper remove the party except completion.
+	// (The reaper is asynchronous: give an unannounced end event a moment to be handled.)
+	if s.ending == "" && (s.life == nil || (!s.life.rejected && !s.life.timedOut)) && s.round.WaitReaped(10*time.Millisecond) {
+		o := s.observe(s.hash)
+		if len(s.chain.generated) == 0 {
+			r.addViol(s, "party-ended-with-error-without-cause",
+				"the party was reaped after an error although the block was never on the chain: some message made a handler return an error",
+				map[string]interface{}{"state": o.line})
+		}
+	}
+	if len(s.honest) < s.ks.k {
 		return
 	}
 	o := s.observe(s.hash)
